@@ -11,3 +11,22 @@ claim("C03", "fuzzing / property-based testing: structured mutation of generated
       "Generated near-valid inputs (16 mutation operators over generated modules/components, deep nesting) fed to all four parse entry points; any panic or abort is a violation unless it matches a listed known finding by (file, message) signature.",
       "Trusted: the supervisor's attribution of aborts to the in-flight case; panic signatures ignore line numbers, so two panics with the same message in one file share a signature.",
       "DESIGN.md 5/C03")
+_edit_note = "Trusted: wasmparser validator/decoder; the identity convention of the generated bases (imports by name, local functions by a leading marker constant, globals by type+initialiser, memories by limits; ambiguous bases are discarded and counted); the model mirrors only the documented ID contract."
+claim("C06", "property-based testing of call histories: generated function/import edit histories run against the library and an identity-based reference model; decoded output compared site by site",
+      "Stateful generated search: base module x history of up to 8 operations; after encode the output must validate and every function reference site (calls, tail calls, ref.func in code and constant expressions, exports, element items, start, injected code) must designate the identity the model assigns. Failures shrink over base and history together.",
+      _edit_note, "DESIGN.md 5/C06")
+claim("C07", "property-based testing of call histories: generated global edit histories against an identity-based reference model",
+      "Stateful generated search over global additions (module API and iterator API), imported additions, deletions, initialiser replacement and injected global.get/set; identity comparison of every global reference site, freshness of returned IDs, validation.",
+      _edit_note, "DESIGN.md 5/C07")
+claim("C08", "property-based testing of call histories: generated memory edit histories on multi-memory bases against an identity-based reference model",
+      "Stateful generated search over memory additions/deletions, data and export additions and injected instructions of every memory family (plain, atomic load/store/rmw/cmpxchg/wait/notify, SIMD, bulk); every memory immediate of every wasmparser operator is compared by identity.",
+      _edit_note, "DESIGN.md 5/C08")
+claim("C09", "property-based testing of call histories: deletions with and without remaining references; oracle = loud failure or exact identity-keyed entity set",
+      "Stateful generated search: half of the deletions leave live references; then encode must panic and never return bytes (start section dropped is accepted); otherwise exactly the deleted entities are gone and all others keep identity and content.",
+      _edit_note, "DESIGN.md 5/C09")
+claim("C10", "property-based testing of call histories: replace_import_in_module on mixed-import bases against the identity model",
+      "Stateful generated search: every function import of bases with interleaved non-function imports is a replacement target; former uses must designate the built body, everything else keeps identity, output validates.",
+      _edit_note, "DESIGN.md 5/C10")
+claim("C11", "property-based testing of call histories: local->import conversions in any order mixed with import additions against the identity model",
+      "Stateful generated search over conversion orders (ascending, descending, mixed with import additions); uses must designate the new import with the given module/name/type.",
+      _edit_note, "DESIGN.md 5/C11")
